@@ -870,7 +870,21 @@ rv = .false.
                     )
 
                 if subprogram == "function":
-                    arg_c_decl.append(ast.bind_c(name=key, params=None))
+                    # The result of the callback, not of the function
+                    # which it is passed to.
+                    res_typemap = arg.typemap
+                    res_type = res_typemap.f_c_type or res_typemap.f_type
+                    if res_type is None or res_typemap.name == "void":
+                        # void * and other opaque results
+                        res_type = "type(C_PTR)"
+                        self.set_f_module(modules, "iso_c_binding", "C_PTR")
+                    else:
+                        self.update_f_module(
+                            modules,
+                            imports,
+                            res_typemap.f_c_module or res_typemap.f_module,
+                        )
+                    arg_c_decl.append("{} :: {}".format(res_type, key))
                 arguments = ",\t ".join(arg_f_names)
                 if node.options.literalinclude:
                     iface.append("! start abstract " + key)
